@@ -19,7 +19,8 @@ RULE = ('pairs/triples of generated sources with overlapping and source-specific
         'after every op cached entries, and at observation points all values/running sets, are compared with the Lean '
         'spec under the CURRENT source. Oracle: (1) mirror world rebuilt under the current source, (2) switch to '
         'another source / None and back must restore every observable value. Non-trivial: history containing >= 2 '
-        'effective source switches; distinct by seed.')
+        'effective source switches; distinct by seed.'
+        ' Also: running boosters across source switches when no fleet is shared (parameter set switchy-boost); switch away, change states of items while they are unloaded, compare attribute values, running effects, statistics and validation with a rebuild, switch home and compare again (away-work).')
 ASSUMPTIONS = ['targets are cleared before a switch (known finding K1 class otherwise)',
                'autocharges and python modifiers not generated']
 CLAUSES = {
